@@ -146,7 +146,7 @@ def match_d21(case, kind, detail):
         return all(near(problem_path(p)) for p in detail)
     if kind == 'foreign-file':
         return near(detail.split(':')[0])
-    if kind == 'idempotence':
+    if kind in ('idempotence', 'watermark'):
         return True
     if kind == 'fresh-verify':
         if detail[0] == 'err' and detail[1][0] == 'ManifestIncompatibleEntry':
